@@ -93,6 +93,116 @@ def rule_namespace_verbatim(ck, F, rule="R6"):
     ck.floor(rule, "calls that hand a namespace name to a registry function", n_calls, 2)
 
 
+LOWERING = ("to_lowercase", "to_ascii_lowercase", "to_string", "to_owned", "clone", "as_str", "into", "from", "as_ref", "deref", "into_owned",
+            "Owned", "Borrowed", "borrow", "as_deref")
+
+
+def rule_prefixes_are_names(ck, F, rule="R7"):
+    """The abbreviation allocated for a namespace is written as an XML prefix (`#[yaserde(prefix = "..")]`): yaserde puts it in
+    front of every element name. A prefix that is empty or starts with a digit gives `<:Order>` / `<202:Order>`, which no XML
+    reader accepts — neither the service nor yaserde itself reading the document back. Decided on the allocator: every value it
+    returns begins with the result of a guard function of the crate (`fn(&str) -> String`) whose post-condition — non-empty, starts
+    with a letter or `_`, goes on with name characters — holds for all strings (finite-domain evaluation, engine/rulekit/identguard);
+    what is appended after it (a counter) are name characters."""
+    from engine.rulekit import identguard as IG
+    from rules import anchors as A
+    makers = A.abbreviation_makers(F)
+    if len(makers) != 1:
+        ck.undecided(rule, "allocator", "-", f"the function that allocates namespace abbreviations could not be attributed uniquely ({makers})")
+        return
+    MAKE = makers[0]
+    mb = F.lib.body(MAKE)
+    short = MAKE.rsplit("::", 1)[-1]
+    W = og.EnvWalker(F)
+    CE = og.CallExpander(F)
+    rets = []
+
+    def cb(e, env, ctx):
+        if e.get("k") == "Ret" and e.get("e") is not None:
+            rets.append((Hh.sp(e), W.NF.nf(e["e"], env)))
+    try:
+        W.walk_fn(MAKE, cb)
+        nb = Hh.norm_body(mb)
+    except og.Unrecognised as u:
+        ck.undecided(rule, "allocator", mb["span"], f"{short} is of unrecognised shape: {u.what}")
+        return
+    tail = Hh.strip(nb["value"])
+    if tail.get("k") == "Block" and tail["b"].get("tail") is not None and Hh.strip(tail["b"]["tail"]).get("k") not in ("Loop", "Ret"):
+        rets.append((Hh.sp(tail["b"]["tail"]), None))     # a value returned by falling off the end: not read here
+    ck.floor(rule, "return sites of the abbreviation allocator", len(rets), 1)
+    bodies = {b["path"]: b for b in F.lib.bodies if not b.get("closure")}
+    cache = {}
+
+    def local_fn(path):
+        b = bodies.get(path)
+        if b is None or b.get("hir") is None:
+            return None
+        if path not in cache:
+            cache[path] = Hh.norm_body(b)
+        return cache[path]
+    verdicts = {}
+
+    def guard_ok(path):
+        """is `path` a function of the crate from text to text whose every result is an NCName?"""
+        if path in verdicts:
+            return verdicts[path]
+        verdicts[path] = None
+        f = next((x for x in A._fn_items(F) if x["path"] == path), None)
+        if f is None or len(f["inputs"]) != 1 or A._norm_ty(f["inputs"][0]) not in ("&str", "std::string::String", "&std::string::String") \
+                or A._norm_ty(f["output"]) != "std::string::String":
+            return None
+        try:
+            tried, cex, classes = IG.decide(local_fn(path), local_fn, IG.BOUND, legal=IG.legal_ncname)
+        except (IG.Unsupported, Hh.Unrecognised, og.Unrecognised):
+            return None
+        verdicts[path] = (not cex, tried, classes, cex)
+        return verdicts[path]
+
+    def leaves(v):
+        if isinstance(v, tuple) and v[0] == "call" and len(v[2]) == 1 and str(v[1]).rsplit("::", 1)[-1] in LOWERING:
+            return leaves(v[2][0])       # (`candidate.into_owned()` of a choice is the choice of the `into_owned()`s)
+        if isinstance(v, tuple) and v[0] == "ifelse":
+            return leaves(v[2]) + leaves(v[3])
+        if isinstance(v, tuple) and v[0] == "match":
+            return [x for _p, arm in v[2] for x in leaves(arm)]
+        return [v]
+
+    def head(v):
+        """the value the text starts with: the first hole of a format that starts with a hole, through copying / lower-casing steps"""
+        cur = v
+        for _ in range(12):
+            if isinstance(cur, tuple) and cur[0] == "format" and cur[1] and cur[1][0][0] == "hole":
+                cur = cur[1][0][1]
+            elif isinstance(cur, tuple) and cur[0] == "call" and len(cur[2]) == 1 and str(cur[1]).rsplit("::", 1)[-1] in LOWERING:
+                cur = cur[2][0]
+            elif isinstance(cur, tuple) and cur[0] == "payload":
+                cur = cur[2]
+            else:
+                break
+        return cur
+    for site, v in rets:
+        if v is None:
+            ck.undecided(rule, "prefix-is-a-name", site, f"{short} returns a value that is not a plain `return` of a readable expression")
+            continue
+        bad = None
+        for leaf in leaves(v):
+            h = head(leaf)
+            g = guard_ok(h[1]) if isinstance(h, tuple) and h[0] == "call" and isinstance(h[1], str) else None
+            if not g or not g[0]:
+                bad = (leaf, h, g)
+                break
+        if bad is None:
+            ck.ok(rule, "prefix-is-a-name", site, f"{short}: every returned abbreviation begins with the result of a guard whose results are XML names for all inputs")
+        else:
+            leaf, h, g = bad
+            why = (f"the guard {h[1].rsplit('::', 1)[-1]} returns {list(g[3].values())[0][1]!r} for {list(g[3].values())[0][0]!r}" if g and g[3] else
+                   "it does not pass a function of the crate that makes it a name (non-empty, starting with a letter)")
+            ck.violation(rule, "prefix-is-a-name", site,
+                         f"{short} can return an abbreviation that is not an XML name — {og.nf_str(h)[:70]}: {why}. A namespace whose last path segment is "
+                         f"empty (`http://tempuri.org/`) or starts with a digit (`.../2024`) gets the prefix `` / `202`; yaserde then writes `<:Order>` / "
+                         f"`<202:Order>`, which cannot be read back (and is what a client sends)")
+
+
 def run(ck, F):
     ck.explanation = (
         "Width table: the builtin mapping (extracted from the `match` of as_rust_type composed with Display of RustFieldType) is "
@@ -108,10 +218,13 @@ def run(ck, F):
     ck.rule("R2", "repeatable => Vec: every row of the occurrence table with maxOccurs unbounded or >1 (own or parent) is emitted as Vec<T>")
     ck.rule("R3", "every prefix a struct's members can carry is declared by the struct (undeclared prefixes do not deserialize)")
     ck.rule("R5", "simple types carry their text: text=true on String / flatten on a user type")
+    ck.rule("R7", "XML prefixes are names: every abbreviation the allocator returns begins with the result of a guard whose results are "
+                  "NCNames for all inputs (non-empty, starting with a letter or `_`)")
     ck.rule("R6", "namespace names are carried verbatim: the name a generated type declares is the text of the schema's "
                   "targetNamespace / xmlns declaration, not a trimmed, re-cased or otherwise normalised spelling of it")
     X = T.extractor(F)
     rule_namespace_verbatim(ck, F)
+    rule_prefixes_are_names(ck, F)
     table, fall, site = C02.builtin_table(F)
     if table is None:
         ck.undecided("R1", "table", "-", "builtin table not found")
